@@ -34,7 +34,7 @@ def run(ctx):
         ctx.violation(f"c05:{e['endpoint']}:{e['scenario']}", f"{kind} on {e['endpoint']} ({e['scenario']}): non-whole segments {tail}, {e['note']}", e)
     # vacuity guard: the interruption scenarios must actually have interrupted a write
     want_int = [e for e in evs if e["scenario"] in ("write_timeout_stalled_reader", "write_timeout_stalled_peer", "call_abandoned_mid_write",
-                                                      "queued_callers_behind_abandoned_write", "queued_callers_behind_write_timeout", "notify_abandoned_mid_write", "write_timeout_many_small_responses") and e["endpoint"] != "ws_client"]
+                                                      "queued_callers_behind_abandoned_write", "queued_callers_behind_write_timeout", "notify_abandoned_mid_write", "forwarded_notify_abandoned_mid_write", "write_timeout_many_small_responses") and e["endpoint"] != "ws_client"]
     n_int = sum(1 for e in want_int if e["interrupted"])
     ctx.coverage["interruption_scenarios"] = len(want_int)
     ctx.coverage["interruption_scenarios_that_interrupted"] = n_int
